@@ -439,6 +439,23 @@ Proof.
            ++ apply Hin'. exists r. split; [exact Hr|]. rewrite py_nth_nonneg. exact Ex.
 Qed.
 
+(** axis 1: when every shape has more than j rows, the slice is exactly the entries of row j of every shape *)
+Theorem get_slice1_generic {A} (g : list (list (list A))) (j : nat) :
+  (forall s, In s g -> j < length s) ->
+  exists l, get_slice g 1 (Z.of_nat j) = Some l /\
+            forall x, In x l <-> exists s r, In s g /\ nth_error s j = Some r /\ In x r.
+Proof.
+  intro H. simpl.
+  destruct (all_some_total (fun s : list (list A) => slice1_shape s (Z.of_nat j)) g) as [ll [E [_ Hin]]].
+  - intros s Hs. unfold slice1_shape. rewrite py_nth_nonneg. apply nth_error_Some. apply H. exact Hs.
+  - rewrite E. simpl. exists (concat ll). split; [reflexivity|].
+    intro x. rewrite in_concat'. split.
+    + intros [r [Hr Hx]]. apply Hin in Hr. destruct Hr as [s [Hs Es]].
+      unfold slice1_shape in Es. rewrite py_nth_nonneg in Es. exists s, r. auto.
+    + intros [s [r [Hs [Er Hx]]]]. exists r. split; [|exact Hx].
+      apply Hin. exists s. split; [exact Hs|]. unfold slice1_shape. rewrite py_nth_nonneg. exact Er.
+Qed.
+
 (** axis 2 is the list of operations of the addressed shape, whatever its layout *)
 Theorem get_slice2_generic {A} (g : list (list (list A))) (idx : Z) :
   get_slice g 2 idx = option_map (@concat A) (py_nth g idx).
